@@ -144,40 +144,53 @@ schedule is expressible, and the optimum need not be.)
 namespace Rl4co.Spec.Ffsp
 open Rl4co.Ffsp (Inst MT UNSET)
 
-/-- position of machine `m` in the sweep of its stage -/
-def posOf (i : Inst) (m : Nat) : Nat :=
-  ((List.range i.M).find? (fun p => i.perm p == m % i.M)).getD 0
+open Rl4co.Ffsp (machineOf)
 
-def opOf (i : Inst) (ops : List Op) (j k : Nat) : Option Op :=
-  ops.find? (fun o => o.job == j && o.stage i == k)
-
-/-- no operation of machine `m` covers or starts at time `t` -/
-def idleAt (i : Inst) (ops : List Op) (m : Nat) (t : Int) : Bool :=
-  ops.all (fun o => o.machine != m || (!(decide (o.start ≤ t) && decide (t < o.fin i)) && o.start != t))
-
-/-- job `j` has completed the stage before that of `m` by `t` and has not yet started its operation
-of `m`'s stage when the sweep reaches `m` at time `t` -/
-def availAt (i : Inst) (ops : List Op) (j m : Nat) (t : Int) : Bool :=
-  let k := m / i.M
-  (k == 0 || match opOf i ops j (k - 1) with
-             | some o => decide (o.fin i ≤ t)
-             | none => false) &&
-  match opOf i ops j k with
-  | some o => decide (t < o.start) || (o.start == t && decide (posOf i m < posOf i o.machine))
-  | none => false
-
-/-- leaving a stage-`k` machine idle at `t` is permitted: some job has not completed stage `k-1` -/
-def skipOK (i : Inst) (ops : List Op) (k : Nat) (t : Int) : Bool :=
-  decide (1 ≤ k) && (List.range i.J).any (fun j =>
-    match opOf i ops j (k - 1) with
-    | some o => decide (t < o.fin i)
-    | none => true)
-
+/-- latest start time of the schedule -/
 def horizon (ops : List Op) : Nat := (ops.map (fun o => o.start.toNat)).foldl max 0
 
-def expressible (i : Inst) (ops : List Op) : Bool :=
-  (List.range (MT i)).all (fun m => (List.range (horizon ops + 1)).all (fun t =>
-    !(idleAt i ops m t && (List.range i.J).any (fun j => availAt i ops j m t)) || skipOK i ops (m / i.M) t))
+/-- the operation `o` sits at a slot after `(t, sub)` of the sweep (time-major, then sweep index) -/
+def SitsAfter (i : Inst) (t sub : Nat) (o : Op) : Prop :=
+  (t : Int) < o.start ∨ (o.start = (t : Int) ∧ ∃ sub', sub' < MT i ∧ sub < sub' ∧ o.machine = machineOf i sub')
+
+/-- no operation of machine `m` starts at or covers time `t` -/
+def Idle (i : Inst) (ops : List Op) (m t : Nat) : Prop :=
+  ∀ o, o ∈ ops → o.machine = m → ¬ (o.start = (t : Int) ∨ (o.start ≤ (t : Int) ∧ (t : Int) < o.fin i))
+
+/-- when the sweep stands at slot `(t, sub)` (a machine of stage `sub / M`), job `j` has completed the
+previous stage and has not yet started its operation of this stage -/
+def Avail (i : Inst) (ops : List Op) (j t sub : Nat) : Prop :=
+  (sub / i.M = 0 ∨ ∃ o, o ∈ ops ∧ o.job = j ∧ o.stage i + 1 = sub / i.M ∧ o.fin i ≤ (t : Int)) ∧
+  (∃ o, o ∈ ops ∧ o.job = j ∧ o.stage i = sub / i.M ∧ SitsAfter i t sub o)
+
+/-- leaving a stage-`k` machine idle at `t` is permitted: some job has not completed stage `k-1` by `t` -/
+def SkipOK (i : Inst) (ops : List Op) (k t : Nat) : Prop :=
+  1 ≤ k ∧ ∃ j, j < i.J ∧ ∀ o, o ∈ ops → o.job = j → o.stage i + 1 = k → (t : Int) < o.fin i
+
+/-- **Expressible schedules**: whenever the sweep stands at an idle machine for which a job is available,
+leaving it idle must have been permitted. -/
+def Expressible (i : Inst) (ops : List Op) : Prop :=
+  (∀ t, t ≤ horizon ops → ∀ sub, sub < MT i → Idle i ops (machineOf i sub) t →
+    (∃ j, j < i.J ∧ Avail i ops j t sub) → SkipOK i ops (sub / i.M) t) ∧
+  -- a machine is visited once per time unit (implied by validity when all durations are positive)
+  (∀ o, o ∈ ops → ∀ o', o' ∈ ops → o ≠ o' → o.machine = o'.machine → o.start ≠ o'.start)
+
+instance (i : Inst) (t sub : Nat) (o : Op) : Decidable (SitsAfter i t sub o) := by
+  unfold SitsAfter; exact inferInstance
+instance (i : Inst) (ops : List Op) (m t : Nat) : Decidable (Idle i ops m t) := by
+  unfold Idle; exact inferInstance
+instance (i : Inst) (ops : List Op) (j t sub : Nat) : Decidable (Avail i ops j t sub) := by
+  unfold Avail; exact inferInstance
+instance (i : Inst) (ops : List Op) (k t : Nat) : Decidable (SkipOK i ops k t) := by
+  unfold SkipOK; exact inferInstance
+instance (i : Inst) (ops : List Op) : Decidable (Expressible i ops) := by
+  unfold Expressible; exact inferInstance
+
+/-- executable version used as the run-time oracle (it *is* the decision of the definition) -/
+def expressible (i : Inst) (ops : List Op) : Bool := decide (Expressible i ops)
+
+theorem expressible_iff (i : Inst) (ops : List Op) : expressible i ops = true ↔ Expressible i ops := by
+  simp [expressible]
 
 /-- all assignments of a machine of the right stage and a start time `0..H` to every (job, stage) -/
 def candidates (i : Inst) (H : Nat) : List (List Op) :=
